@@ -269,7 +269,12 @@ func (a *analysis) walk(f *sx, path []pcell, c actx) {
 		}
 	case "with-mutex-lock":
 		var n int
-		if _, err := fmt.Sscanf(args[0].Atom, "m%d", &n); err == nil && a.nMutex < n {
+		if args[0].head() == "vmx" {
+			n, _ = args[0].List[1].isInt()
+		} else {
+			_, _ = fmt.Sscanf(args[0].Atom, "m%d", &n)
+		}
+		if a.nMutex < n {
 			a.nMutex = n
 		}
 		a.walkBody(h, args[1:], path, c)
